@@ -66,6 +66,15 @@ fn configs(tier: Tier) -> Vec<Cfg> {
     k0.target = 65536;
     k0.min_cpr = None;
     v.push(k0);
+    // fragmentation prevention alone (no small xorb limits): estimator window 2 / 3, target 4 / 3 chunks per range
+    let mut k9 = base("K9-defrag-only-n2");
+    k9.nranges = Some(2);
+    k9.min_cpr = Some(4.0);
+    v.push(k9);
+    let mut k10 = base("K10-defrag-only-n3");
+    k10.nranges = Some(3);
+    k10.min_cpr = Some(3.0);
+    v.push(k10);
     if tier == Tier::Thorough {
         let mut k8 = base("K8-chunks4-defrag-n3");
         k8.max_xorb_chunks = Some(4);
@@ -105,6 +114,9 @@ fn plan(tier: Tier) -> Vec<(Cfg, &'static str)> {
             for k in ["K1", "K3"] {
                 p.push((by(k), "F8"));
             }
+            for k in ["K9", "K10", "K3"] {
+                p.push((by(k), "F9"));
+            }
         },
         Tier::Thorough => {
             p.push((by("K0"), "F7"));
@@ -112,9 +124,17 @@ fn plan(tier: Tier) -> Vec<(Cfg, &'static str)> {
                 if c.target == 65536 {
                     continue;
                 }
-                for f in ["F1", "F2", "F3", "F4", "F5", "F6", "F6c", "FS", "F8"] {
-                    if c.target == 1024 && (f == "F2" || f == "F3" || f == "F4" || f == "F8") {
+                for f in ["F1", "F2", "F3", "F4", "F5", "F6", "F6c", "FS", "F8", "F9"] {
+                    if c.target == 1024 && (f == "F2" || f == "F3" || f == "F4" || f == "F8" || f == "F9") {
                         continue;
+                    }
+                    if f == "F9" && !c.prevention_on() {
+                        continue;
+                    }
+                    if c.name.starts_with("K9") || c.name.starts_with("K10") {
+                        if f != "F9" && f != "F3" && f != "F1" {
+                            continue;
+                        }
                     }
                     p.push((c.clone(), f));
                 }
